@@ -11,6 +11,9 @@
 #include <cstdlib>
 #include <cstdio>
 #include <cmath>
+#include <csignal>
+#include <sys/time.h>
+#include <unistd.h>
 #include "givinteger.h"
 #include "modular.h"
 #include "modular-balanced.h"
@@ -229,8 +232,24 @@ typedef std::string (*Fn)(const std::string&, const std::string&, const Args&);
 static std::map<std::string, Fn> table;
 #define REG(name, ...) table[name] = &Run<__VA_ARGS__ >::go
 
+// per-case CPU-time watchdog (ITIMER_PROF counts CPU time of this process only: independent of machine load).  A ring operation
+// that does not return within the budget (C03_CASE_CPU_S seconds, default 20) answers "DOES-NOT-RETURN" for that case and the process
+// exits with status 3; checks/C03.py re-runs that one case alone with a larger budget and carries on with the remaining cases.
+static void on_cpu_budget(int) {
+    std::cout.flush();
+    const char m[] = "DOES-NOT-RETURN\n";
+    ssize_t w = write(1, m, sizeof m - 1); (void) w;
+    _exit(3);
+}
+static void arm_watchdog(long sec) {
+    struct itimerval it; it.it_interval.tv_sec = 0; it.it_interval.tv_usec = 0; it.it_value.tv_sec = sec; it.it_value.tv_usec = 0;
+    setitimer(ITIMER_PROF, &it, 0);
+}
+
 int main() {
     typedef __int128_t i128; typedef __uint128_t u128;
+    long cpu_budget = 20; { const char* e = getenv("C03_CASE_CPU_S"); if (e && atol(e) > 0) cpu_budget = atol(e); }
+    signal(SIGPROF, on_cpu_budget);
     // The ring types are spread over four translation units (-DC03_PART=1..4, compiled in parallel by checks/C03.py);
     // without C03_PART every ring is registered.
 #if !defined(C03_PART) || C03_PART == 1
@@ -286,6 +305,8 @@ int main() {
         if (at != std::string::npos) ring = ring.substr(0, at);
         std::map<std::string, Fn>::iterator it = table.find(ring);
         if (it == table.end()) { std::cout << "UNKNOWN-RING\n"; continue; }
+        if (op == "hang") { volatile unsigned long z = 1; while (z) z += 2; }     // self-test of the watchdog (never generated)
+        arm_watchdog(cpu_budget);
         try { std::cout << it->second(p, op, a) << "\n"; }
         catch (...) { std::cout << "EXCEPTION\n"; }
     }
